@@ -15,8 +15,8 @@ static int icount(unsigned int v)
   __CPROVER_assigns()
   __CPROVER_ensures(RV >= 0 && RV <= 32 && (v < 256 ==> RV == POP8(v)));
 
-#define RES0_HEAD_OK(info) ((info)->begin >= -1 && (info)->begin < (1L << 24) && (info)->end >= -1 && (info)->end < (1L << 24) && \
-   (info)->grouping >= 0 && (info)->grouping <= (1 << 24) && (info)->partitions >= 1 && (info)->partitions <= 64 && \
+#define RES0_HEAD_OK(info) ((info)->begin >= 0 && (info)->begin < (1L << 24) && (info)->end >= 0 && (info)->end < (1L << 24) && \
+   (info)->grouping >= 1 && (info)->grouping <= (1 << 24) && (info)->partitions >= 1 && (info)->partitions <= 64 && \
    (info)->groupbook >= 0 && (info)->groupbook <= 255)
 #define R0 ((vorbis_info_residue0 *)RV)
 #define RCI ((codec_setup_info *)vi->codec_setup)
@@ -25,6 +25,10 @@ static int icount(unsigned int v)
 vorbis_info_residue *res0_unpack(vorbis_info *vi, oggpack_buffer *opb)
   __CPROVER_requires(__CPROVER_rw_ok(vi, sizeof(*vi)) && __CPROVER_rw_ok(vi->codec_setup, sizeof(codec_setup_info)))
   __CPROVER_requires(RCI->books >= 1 && RCI->books <= VERIF_MAXBOOKS)
+  /* what vorbis_staticbook_unpack establishes for every book (unit codebook_unpack) */
+#define SB_OK(ci, k) ((k) >= (ci)->books || ((ci)->book_param[k]->entries >= 0 && (ci)->book_param[k]->entries < (1L << 24) && \
+                      (ci)->book_param[k]->dim >= 0 && (ci)->book_param[k]->dim < 65536))
+  __CPROVER_requires(SB_OK(RCI, 0) && SB_OK(RCI, 1) && SB_OK(RCI, 2) && SB_OK(RCI, 3) && SB_OK(RCI, 4) && SB_OK(RCI, 5))
   __CPROVER_requires(FRESH(opb, sizeof(*opb)) && INV_OPB(opb))
   __CPROVER_assigns(opb->endbyte, opb->endbit, opb->ptr, g_bits_read)
   __CPROVER_ensures(RV == NULL || FRESH(RV, sizeof(vorbis_info_residue0)))
